@@ -15,6 +15,7 @@ def run(ctx):
     provenance.rule_range_encoding(ctx)
     progress.rule_blocking(ctx)
     progress.rule_selector_freshness(ctx)
+    progress.rule_local_selector_retired(ctx)
     accept.rule_stage_layering(ctx, 'skeptical')
     ctx.assume("rustc's MIR and resolved callees; the tables stated in the property (DS-CO through the grounded solver)")
     return (
